@@ -49,6 +49,7 @@ func checkC19(r *Run) {
 	c19WStat(r)
 	c19Create(r)
 	c19FreshStat(r)
+	c19HostEffects(r)
 }
 
 // Every FileRef handed out describes the host as it is now: its Info comes from dirFromInfo(os.Stat(host path of
@@ -619,4 +620,78 @@ func unconv(v ssa.Value) ssa.Value {
 			return v
 		}
 	}
+}
+
+// c19HostEffects: each file-system operation changes the host through exactly the host call that has the same
+// meaning, so that its outcome (success, error, resulting state) is the host's own:
+//   Remove → os.Remove;  WStat → os.Chmod / os.Chown / rename / os.Truncate on the path;  Create → os.Mkdir, os.OpenFile;
+//   Open → os.OpenFile;  Write → (*os.File).WriteAt.
+// A different mutating call — ftruncate on the open descriptor, rmdir/unlink chosen from a cached type — behaves
+// differently from the direct operation in corner cases (read-only descriptors, symlinks, stale type).
+func c19HostEffects(r *Run) {
+	p := r.P
+	mutating := map[string]bool{"Remove": true, "RemoveAll": true, "Rename": true, "Truncate": true, "Chmod": true, "Chown": true, "Lchown": true,
+		"Mkdir": true, "MkdirAll": true, "OpenFile": true, "Create": true, "Rmdir": true, "Unlink": true, "Link": true, "Symlink": true,
+		"Chtimes": true, "WriteAt": true, "Write": true, "WriteString": true, "WriteFile": true, "Ftruncate": true, "Fchmod": true, "Fchown": true}
+	allowed := map[string]map[string]bool{
+		"Remove": {"os.Remove": true},
+		"WStat":  {"os.Chmod": true, "os.Chown": true, "syscall.Rename": true, "os.Rename": true, "os.Truncate": true},
+		"Create": {"os.Mkdir": true, "os.OpenFile": true},
+		"Open":   {"os.OpenFile": true},
+		"Write":  {"(*os.File).WriteAt": true},
+		"Read":   {}, "Stat": {}, "Walk": {}, "OpenDir": {}, "Clunk": {}, "Qid": {}, "IOUnit": {},
+	}
+	required := map[string][]string{"Remove": {"os.Remove"}, "Open": {"os.OpenFile"}, "Write": {"(*os.File).WriteAt"}}
+	n := 0
+	for m, allow := range allowed {
+		fn := p.Fn("ufs:(*FileRef)." + m)
+		if fn == nil {
+			continue
+		}
+		have := map[string]bool{}
+		for _, f := range p.withHelpers(fn, 1) {
+			if f != fn && f.Signature.Recv() != nil && f.Object() != nil && f.Object().Exported() {
+				continue // another operation of the interface, judged on its own
+			}
+			f := f
+			eachInstr(f, func(in ssa.Instruction) {
+				c, ok := in.(ssa.CallInstruction)
+				if !ok {
+					return
+				}
+				g := staticCallee(c.Common())
+				if g == nil || g.Pkg == nil {
+					return
+				}
+				pk := g.Pkg.Pkg.Path()
+				if pk != "os" && pk != "syscall" {
+					return
+				}
+				if !mutating[g.Name()] {
+					return
+				}
+				n++
+				name := calleeName(c.Common())
+				have[name] = true
+				r.Check(allow[name], "host-effects", fmt.Sprintf("FileRef.%s: changes the host only through %s", m, allowedList(allow)), in.Pos(),
+					"FileRef."+m+" acts on the host through "+name+", which is not the host operation this request stands for: its result differs from the direct operation in corner cases")
+			})
+		}
+		for _, need := range required[m] {
+			r.Check(have[need], "host-effects", fmt.Sprintf("FileRef.%s: performs %s", m, need), fn.Pos(), "the operation no longer goes through "+need)
+		}
+	}
+	r.Floor("host-effects", n, 8, "mutating host calls in FileRef methods")
+}
+
+func allowedList(m map[string]bool) string {
+	ks := []string{}
+	for k := range m {
+		ks = append(ks, k)
+	}
+	sort.Strings(ks)
+	if len(ks) == 0 {
+		return "no mutating host call"
+	}
+	return strings.Join(ks, ", ")
 }
